@@ -10,7 +10,6 @@ import (
 	"bytes"
 	"context"
 	"encoding/binary"
-	"fmt"
 	"io"
 
 	"google.golang.org/protobuf/proto"
@@ -61,8 +60,12 @@ func (stream *Stream) Backup(w io.Writer, since uint64) (uint64, error) {
 				return list, nil
 			}
 			if item.Version() < since {
-				return nil, fmt.Errorf("Backup: Item Version: %d less than sinceTs: %d",
-					item.Version(), since)
+				// Older than what this backup covers: the key's newer versions collected so
+				// far still belong to it. Returning an error here made the stream framework
+				// skip the key altogether (the error is only logged), so a Stream.Backup on
+				// a stream whose SinceTs is below since silently lost every key that also
+				// had an older version.
+				return list, nil
 			}
 
 			var valCopy []byte
